@@ -92,6 +92,29 @@ def ref_set_on(topic, msg):
     return None
 
 
+def ref_rs(topic, msg):
+    """shutter commands: set/closing_percentage and set/tilt take a decimal number 0..100 (an optional
+    fraction is cut off), execute_action takes shut/reveal/stop/recalibrate/calibrate"""
+    import re
+    pre = PREFIX + b"/channels/"
+    if not topic.startswith(pre) or not msg:
+        return None
+    rest = topic[len(pre):]
+    if b"/" not in rest:
+        return None
+    num, cmd = rest.split(b"/", 1)
+    if not num or not num.isdigit() or len(num) > 9 or int(num) > 255:
+        return None
+    if cmd in (b"set/closing_percentage", b"set/tilt"):
+        m = re.fullmatch(rb"(-?)(\d+)(\.\d*)?", msg)
+        if not m or len(m.group(2)) > 9 or int(m.group(2)) > 100 or (m.group(1) and int(m.group(2)) != 0):
+            return None
+        return (int(num), "pct" if cmd.endswith(b"percentage") else "tilt", int(m.group(2)))
+    if cmd == b"execute_action" and msg.lower() in (b"shut", b"reveal", b"stop", b"recalibrate", b"calibrate"):
+        return (int(num), "act", msg.lower().decode())
+    return None
+
+
 def ref_val(is_unsigned, raw, prec):
     neg = (not is_unsigned) and raw >= 1 << 63
     mag = (1 << 64) - raw if neg else raw
@@ -142,6 +165,8 @@ class C17(F.Spec):
             yield self.gen_topics(rng, i)
         for i in range(n):
             yield self.gen_vals(rng, i)
+        for i in range(n):
+            yield self.gen_rs_topics(rng, i)
 
     def gen_connect(self, rng, i):
         noauth = rng.random() < .25
@@ -202,6 +227,18 @@ class C17(F.Spec):
                 t = t[:rng.randint(0, len(t))]
             pairs.append((t, msg))
         return self.topic_case("topics%d" % i, pairs)
+
+    def gen_rs_topics(self, rng, i):
+        ops = ["start"]
+        for _ in range(8):
+            ch = rng.choice([0, 1, 7, 255, 256])
+            cmd = rng.choice([b"set/closing_percentage", b"set/tilt", b"execute_action", b"set/tilt", b"set/closing_percentage"])
+            msg = rng.choice([b"0", b"50", b"100", b"101", b"50.5", b"50.", b"50.abc", b"1.2.3", b"100.%", b"5x", b"x5", b"-", b"-0", b"-5",
+                              b"+5", b" 5", b"5 ", b"1e2", b"0x10", b"0050", b"99999999999", b"", b".5", b"shut", b"SHUT", b"Reveal",
+                              b"stop", b"recalibrate", b"calibrate", b"shutt", b"sto"])
+            t = PREFIX + b"/channels/" + str(ch).encode() + b"/" + cmd
+            ops.append("topicrs %s %s" % (t.hex(), msg.hex() or "-"))
+        return F.Case("rstopics%d" % i, ops, {"tags": ["topicrs"], "kind": "topic"})
 
     def gen_vals(self, rng, i):
         ops = ["start"]
@@ -288,6 +325,20 @@ class C17(F.Spec):
                             else:
                                 cls = "topic-grammar"
                             fs.append(F.Finding(cls, "topic %r payload %r: device %s, grammar %s" % (tp[-30:], ms, got, want)))
+            elif t[0] == "topicrs":
+                tp = bytes.fromhex(t[1]) if t[1] != "-" else b""
+                ms = bytes.fromhex(t[2]) if t[2] != "-" else b""
+                want = ref_rs(tp, ms)
+                for x in g:
+                    if x.startswith("RSACT "):
+                        r, ch, act, pct, tilt = [int(v) for v in x.split()[1:]]
+                        if (r == 1) != (want is not None):
+                            fs.append(F.Finding("rs-command-grammar", "shutter topic %r payload %r: device accepted=%d, grammar %s"
+                                                % (tp[-28:], ms, r, want)))
+                        elif r == 1 and want[1] == "pct" and (ch, pct) != (want[0], want[2]):
+                            fs.append(F.Finding("rs-command-grammar", "payload %r gave channel %d percentage %d, expected %s" % (ms, ch, pct, want)))
+                        elif r == 1 and want[1] == "tilt" and (ch, tilt) != (want[0], want[2]):
+                            fs.append(F.Finding("rs-command-grammar", "payload %r gave channel %d tilt %d, expected %s" % (ms, ch, tilt, want)))
             elif t[0] == "val":
                 want = ref_val(t[1] == "1", int(t[2]), int(t[3]))
                 for x in g:
@@ -306,6 +357,8 @@ class C17(F.Spec):
             for x in g:
                 if x.startswith("SETON 1"):
                     ks.add("seton")
+                elif x.startswith("RSACT 1"):
+                    ks.add("rsact" + x.split()[3])
                 elif x.startswith("VAL") and "." in x:
                     ks.add("frac" + str(len(x) // 6))
                 elif x.startswith("SENT 0 10"):
